@@ -29,6 +29,8 @@ type tcase struct {
 	Limit  int             `json:"limit"`
 	Sched  []tstep         `json:"sched"`
 	Expect json.RawMessage `json:"expect"`
+	// OnlookerFirst: the onlooker without backpressure registers before the subscriber under test
+	OnlookerFirst bool `json:"onlookerFirst"`
 }
 type wobs struct {
 	Began   bool   `json:"began"`
@@ -97,7 +99,7 @@ func runTScript(c tcase, tick time.Duration) *tobs {
 	defer lcancel()
 	var lossyLast int64 = 100
 	var ch, lch <-chan *resource.ValueChange
-	if c.N%2 == 0 {
+	if c.OnlookerFirst {
 		lch = v.Pull(lctx, resource.WithBackpressure(false))
 		ch = v.Pull(ctx, resource.WithBackpressure(true), resource.WithUpdatesOnly(true))
 	} else {
